@@ -830,8 +830,10 @@ class Gen:
             self.add(Form("import", "import from %s;" % da))
             self.mark += 1
             self.add(Form("out", '%s << "@@%d:" << %s()$%s << newline;' % (self.d.out, self.mark, tg, db), marker="@@%d:" % self.mark, value="@@%d:2" % self.mark))
-            self.funs[tg + "0"] = None
-            del self.funs[tg + "0"]
+            # the pattern of the finding, once for certain: the rejected import, then an unqualified use
+            self.b_any()
+            self.mark += 1
+            self.add(Form("out", '%s << "@@%d:" << %s() << newline;' % (self.d.out, self.mark, tg), marker="@@%d:" % self.mark, value="@@%d:1" % self.mark))
         last_ctl = False
         while len(self.forms) < nforms:
             x = r.below(100)
